@@ -1276,6 +1276,8 @@ class ArithmeticExpression(Term):
     def get_sql(self, with_alias: bool = False, **kwargs: Any) -> str:
         left_op, right_op = [getattr(side, "operator", None) for side in [self.left, self.right]]
 
+        # the left operand is rendered first: a parameter collector must see the values in the order of the text
+        left_sql = _operand_sql(self.left, **kwargs)
         right_sql = _operand_sql(self.right, **kwargs)
         # a negative literal or a negation to the right of '-' needs parentheses too: "--" would start a comment
         right_parens = self.right_needs_parens(self.operator, right_op) or (
@@ -1284,9 +1286,7 @@ class ArithmeticExpression(Term):
 
         arithmetic_sql = "{left}{operator}{right}".format(
             operator=self.operator.value,
-            left=("({})" if self.left_needs_parens(self.operator, left_op) else "{}").format(
-                _operand_sql(self.left, **kwargs)
-            ),
+            left=("({})" if self.left_needs_parens(self.operator, left_op) else "{}").format(left_sql),
             right=("({})" if right_parens else "{}").format(right_sql),
         )
 
